@@ -165,10 +165,13 @@ def make_noreset(op):
             elif op == "systematic-resample":
                 tools_mod.systematic_resample(8, np.full(8, 1 / 8))
             elif op.startswith("sampler-iterations"):
-                clustering = "clustering" in op
+                clustering = "-clustering" in op
                 smp = Sampler(lambda u: u, lambda x: -0.5 * np.sum(((x - 0.5) / 0.1) ** 2, axis=1), n_dim=2, n_particles=32,
                               vectorize=True, clustering=clustering, sample="rwm" if "rwm" in op else "tpcn",
-                              resample="syst" if "syst" in op else "mult", n_steps=1, n_max_steps=2)
+                              resample="syst" if "syst" in op else "mult", n_steps=1, n_max_steps=2,
+                              random_state=(11 if "seeded" in op else None))
+                # the stream in force once the sampler exists (seeded or not) is the symbolic state the iterations must depend on
+                stub.term = stub.s_after_construction
                 smp._core._initialize_fresh()
                 for _ in range(6):
                     smp.sample()
@@ -180,6 +183,7 @@ def make_noreset(op):
     def harness(ctx: PathCtx):
         s0 = z3.Const("S0", State)
         stub = StreamStub(s0)
+        stub.s_after_construction = s0
         with threaded(stub):
             run_op(stub)
         ctx.notes["draws"] = stub.n_draws
@@ -216,10 +220,13 @@ def make_noreset(op):
                     elif op == "systematic-resample":
                         tools_mod.systematic_resample(8, np.full(8, 1 / 8))
                     else:
-                        clustering = "clustering" in op
+                        clustering = "-clustering" in op
+                        np.random.seed = real_seed
                         smp = Sampler(lambda u: u, lambda x: -0.5 * np.sum(((x - 0.5) / 0.1) ** 2, axis=1), n_dim=2, n_particles=32,
                                       vectorize=True, clustering=clustering, sample="rwm" if "rwm" in op else "tpcn",
-                                      resample="syst" if "syst" in op else "mult", n_steps=1, n_max_steps=2)
+                                      resample="syst" if "syst" in op else "mult", n_steps=1, n_max_steps=2,
+                                      random_state=(11 if "seeded" in op else None))
+                        np.random.seed = spy_seed  # only re-seeding *after* construction counts
                         smp._core._initialize_fresh()
                         for _ in range(6):
                             smp.sample()
@@ -279,19 +286,23 @@ def make_seeding():
             smp._core._initialize_fresh()
             smp.sample()
             return smp.state.get_current("u").ravel().tolist()
+        k1 = int(m.get("random_state", 5)) % (2 ** 32)
+        k2 = int(m.get("random_state_2", 6)) % (2 ** 32)
+        if k2 == k1:
+            k2 = k1 + 1
         saved = np.random.get_state()
         try:
-            a = run(1, 5)
-            b = run(2, 5)
-            c = run(1, 6)
+            a = run(1, k1)
+            b = run(2, k1)
+            c = run(1, k2)
         finally:
             np.random.set_state(saved)
         if label.startswith("different-seeds"):
             bad = a == c
-            what = f"random_state=5 and random_state=6 from the same global stream give {'identical' if bad else 'different'} particles"
+            what = f"random_state={k1} and random_state={k2} from the same global stream give {'identical' if bad else 'different'} particles"
         else:
             bad = a != b
-            what = f"two constructions with random_state=5 (global stream seeded 1 resp. 2 beforehand) give {'different' if bad else 'identical'} particles: {a[:2]} vs {b[:2]}"
+            what = f"two constructions with random_state={k1} (global stream seeded 1 resp. 2 beforehand) give {'different' if bad else 'identical'} particles: {a[:2]} vs {b[:2]}"
         return {"reproduced": bad, "signature": "random_state-not-applied-at-construction", "payload": {"run_a": a, "run_b": b, "run_c": c}, "what": what}
 
     return Obligation("seeding-at-construction", harness, replay=replay, encodes=[Sampler.__init__, core_mod.SamplerCore.__init__, mutate_mod.Mutator.run],
@@ -300,7 +311,9 @@ def make_seeding():
 
 
 def obligations(tier):
-    ops = ["gmm-fit-default", "gmm-fit-random_state", "hier-fit-predict", "systematic-resample", "sampler-iterations-clustering-tpcn-mult"]
+    ops = ["gmm-fit-default", "gmm-fit-random_state", "hier-fit-predict", "systematic-resample", "sampler-iterations-clustering-tpcn-mult",
+           "sampler-iterations-seeded-clustering-rwm-syst", "sampler-iterations-seeded-noclustering-tpcn-mult"]
     if tier == "thorough":
-        ops += ["sampler-iterations-clustering-rwm-syst", "sampler-iterations-noclustering-tpcn-syst", "sampler-iterations-noclustering-rwm-mult"]
+        ops += ["sampler-iterations-clustering-rwm-syst", "sampler-iterations-noclustering-tpcn-syst", "sampler-iterations-noclustering-rwm-mult",
+                "sampler-iterations-seeded-noclustering-tpcn-syst", "sampler-iterations-seeded-clustering-tpcn-mult"]
     return [make_noreset(o) for o in ops] + [make_seeding()]
